@@ -57,6 +57,16 @@ def exc_code(e):
     return pyerr.exc_code(e)
 
 
+def taghash(taglist):
+    """Bac.ObjCodec.taghash: a constructed value is identified by the digest of the tags it encodes to"""
+    h = 7
+    for t in taglist:
+        d = bytes(t.tagData)
+        for x in [t.tagClass, t.tagNumber, t.tagLVT, len(d)] + list(d):
+            h = (h * 1000003 + x + 11) % 2305843009213693951
+    return h
+
+
 def canon_tags(taglist):
     return [(t.tagClass, t.tagNumber, t.tagLVT, bytes(t.tagData).hex()) for t in taglist]
 
@@ -103,7 +113,7 @@ def abs_elem(scls, v):
         tl = P.TagList(); v.encode(tl)
     except Exception as ex:
         return ('b', cid(scls), exc_code(ex))
-    return ('c', cid(scls), code((scls.__name__, tuple(canon_tags(tl.tagList)))))
+    return ('c', cid(scls), taghash(tl.tagList))
 
 
 def sdt_of(cls):
